@@ -241,7 +241,14 @@ class FakeSocket(object):
         if self.addr is not None:
             raise OSError(errno.EINVAL, 'Invalid argument')
         if self.world.is_busy(self.type, port):
-            raise OSError(errno.EADDRINUSE, 'Address already in use')
+            # Linux lets two UDP sockets that BOTH set SO_REUSEADDR before bind() share an address. The holders of the
+            # busy ports are other containers' sockets made by this same code, so they carry the options this socket
+            # carries: a udp socket that set SO_REUSEADDR before binding is let in (and the oracle then sees a port of
+            # the busy set handed out). TCP holders are listening: always refused.
+            shared = (self.type == FakeSocketModule.SOCK_DGRAM
+                      and (FakeSocketModule.SOL_SOCKET, FakeSocketModule.SO_REUSEADDR, 1) in self.opts)
+            if not shared:
+                raise OSError(errno.EADDRINUSE, 'Address already in use')
         self.world.busy[self.type][2].add(port)
         self.addr = (ip, port)
 
